@@ -16,7 +16,27 @@ from . import codes, common
 def estimate(rec):
     w = max((len(set(s['x']) | set(s['z'])) for s in rec['stabs']), default=1)
     d = rec['d']
+    if all(not s['x'] or not s['z'] for s in rec['stabs']):
+        # CSS: the search uses one letter per run (DistanceSearch.tla)
+        return 2 * rec['n'] * w ** max(d - 2, 0) if d >= 2 else 1
     return 3 * rec['n'] * (3 * w) ** max(d - 2, 0) if d >= 2 else 1
+
+
+def thin_sizes(name, tier):
+    """Long thin lattices: one side 6..10 (12 in the thorough tier), the others
+    among the two smallest the family allows - every orientation."""
+    import itertools
+    dim = codes.dimension(name)
+    lo = codes.SUPPORTED[name].get('min_side', 1)
+    out = []
+    for pos in range(dim):
+        for long_side in range(6, 11 if tier == 'quick' else 13):
+            for others in itertools.product((lo, lo + 1, lo + 2), repeat=dim - 1):
+                it = iter(others)
+                size = tuple(long_side if j == pos else next(it) for j in range(dim))
+                if codes.in_family(name, size) and codes.qubit_count(name, size) <= 400:
+                    out.append(size)
+    return list(dict.fromkeys(out))
 
 
 def domain(tier):
@@ -29,8 +49,9 @@ def domain(tier):
         ms = side2 if codes.dimension(name) == 2 else side3
         if name in ('RhombicToricCode', 'Color3DCode', 'HollowRhombicCode'):
             ms = max(ms, 4)
-        for size in codes.sizes(name, ms, max_n=max_n):
-            variants = codes.deformation_variants(name)
+        for size in list(codes.sizes(name, ms, max_n=max_n)) + thin_sizes(name, tier):
+            thin = max(size) > ms
+            variants = codes.deformation_variants(name) if not thin else [(None, {})]
             # deformation invariance of d is C08's business; here the
             # undeformed code plus (cheaply) the first deformation
             # the undeformed code and every deformation NAME (default axis);
@@ -43,7 +64,8 @@ def domain(tier):
                 r = codes.project(code)
                 r['_label'] = codes.label(name, size, dname, kw)
                 r['_est'] = estimate(r)
-                if r['k'] == 0 or r['d'] > dmax or r['_est'] > cap:
+                # (for the one-letter search the estimate is about 100 times the states TLC visits)
+                if r['k'] == 0 or r['d'] > (dmax if not thin else 10) or r['_est'] > (cap if not thin else 100 * cap):
                     continue
                 recs.append(r)
     for j, r in enumerate(recs):
